@@ -393,7 +393,7 @@ func randomScript(r *vh.Rand) []stepJ {
 func main() {
 	cfg := vh.ParseFlags()
 	r := vh.NewRand(cfg.Seed)
-	out := vh.NewOut(cfg.Out, "From Coq Require Import List ZArith Bool.\nImport ListNotations.\nFrom LinDBV.C11 Require Import Model Check.\nFrom LinDBV.C12 Require Import Model Check.\nFrom LinDBV.C11 Require Import QCheck.\nOpen Scope Z_scope.\n")
+	out := vh.NewOut(cfg.Out, "From Coq Require Import List ZArith Bool.\nImport ListNotations.\nFrom LinDBV.C11 Require Import Model Check.\nFrom LinDBV.C12 Require Import Model Check.\nFrom LinDBV.C11 Require Import QCheck.\nFrom LinDBV.C11 Require Overlap.\nOpen Scope Z_scope.\n")
 	out.ShardSize = 10
 	root, err := os.MkdirTemp("", "verif-c11-")
 	if err != nil {
@@ -426,6 +426,12 @@ func main() {
 		nq = 3
 	}
 	qh.C11QueryWorlds(out, root, cfg.Seed, nq)
+	// a statement answered while the family is being flushed, under forced schedules
+	no := cfg.N / 10
+	if no < 2 {
+		no = 2
+	}
+	qh.C11OverlapWorlds(out, root, cfg.Seed, no)
 	out.Notes = append(out.Notes, "only the last step's read is compared per key (the reads after the earlier steps exercise the load path on every intermediate state and fail the case on an error)")
 	out.Finish()
 }
